@@ -276,8 +276,10 @@ func runC15(env *core.Env) {
 		}
 	}
 	b.Run()
+	siblings := c15SiblingLists(env)
 	validated := b.Conf.run(env)
 	env.Finish("model_checking", map[string]interface{}{
+		"sibling_list_phase": siblings,
 		"states": b.States, "transitions": b.Transitions, "traces_validated_against_impl": validated, "samples": samples.list,
 		"exhaustive": b.Exhaustive, "cap_hit": b.CapHit, "bfs_depth": b.DepthDone, "states_checked": checked,
 		"states_where_progress_is_required": progressStates, "stuck_states": stuck, "states_with_waits_for_cycle": cyclic,
@@ -328,4 +330,83 @@ func opClass(r core.Req) string {
 		return "prune"
 	}
 	return a[0]
+}
+
+// c15SiblingLists: wider stores than the search reaches - an epic F with two or three children that have dependency lists
+// of their own (2-3 entries each), an epic E that waits for F, and a task A in E. The edge "X (in F) waits for A" closes
+// a cycle through the inherited wait of A for F's children and must be refused - on every one of 30 attempts per store
+// (what a search over shared scratch lists answers can depend on the order in which a map is walked).
+func c15SiblingLists(env *core.Env) map[string]interface{} {
+	type cfg struct {
+		nY      int  // dependencies of the sibling Y
+		done    bool // Y and its dependencies finished
+		third   bool // a third child W of F with two dependencies of its own
+		xFirst  bool // X created before Y
+		attempt int
+	}
+	var cfgs []cfg
+	for _, nY := range []int{2, 3} {
+		for _, done := range []bool{true, false} {
+			for _, third := range []bool{false, true} {
+				for _, xf := range []bool{true, false} {
+					cfgs = append(cfgs, cfg{nY: nY, done: done, third: third, xFirst: xf})
+				}
+			}
+		}
+	}
+	var attempts int64
+	env.Parallel(len(cfgs), func(w *core.Worker, i int) {
+		c := cfgs[i]
+		l := newSynLog()
+		e, f := core.IDFor(9701), core.IDFor(9702)
+		a, x, y, wv := core.IDFor(9703), core.IDFor(9704), core.IDFor(9705), core.IDFor(9706)
+		l.Create(SynItem{ID: e, Epic: true, Title: "E waits for F"})
+		l.Create(SynItem{ID: f, Epic: true, Title: "F"})
+		l.Create(SynItem{ID: a, Title: "A", In: e})
+		if c.xFirst {
+			l.Create(SynItem{ID: x, Title: "X", In: f})
+			l.Create(SynItem{ID: y, Title: "Y", In: f})
+		} else {
+			l.Create(SynItem{ID: y, Title: "Y", In: f})
+			l.Create(SynItem{ID: x, Title: "X", In: f})
+		}
+		var zs []string
+		for k := 0; k < c.nY; k++ {
+			z := core.IDFor(int64(9710 + k))
+			zs = append(zs, z)
+			l.Create(SynItem{ID: z, Title: fmt.Sprintf("Z%d", k)})
+		}
+		l.Link(e, f)
+		for _, z := range zs {
+			l.Link(y, z)
+		}
+		l.Link(x, y)
+		if c.third {
+			l.Create(SynItem{ID: wv, Title: "W", In: f})
+			l.Link(wv, zs[0])
+			l.Link(wv, y)
+		}
+		if c.done {
+			for _, z := range zs {
+				l.State(z, "done")
+			}
+			l.State(y, "done")
+		}
+		st := core.Store{".ergo/plans.jsonl": l.Bytes(), ".ergo/lock": nil}
+		req := core.R("", "--json", "sequence", a, x) // X waits for A
+		for k := 0; k < 30; k++ {
+			st.Materialize(w.Proj)
+			run := req
+			run.Cwd = w.Proj
+			res := w.Run(run)
+			atomic.AddInt64(&attempts, 1)
+			if res.Exit != 0 {
+				continue
+			}
+			report(env, "C15 kind=waits-for-cycle with-inherited-epic-edge closed-by=sequence store=sibling-lists", fmt.Sprintf("epic E waits for epic F, A in E, X and Y in F with dependency lists of their own (Y has %d, finished=%v, third child=%v): `sequence A X` (X waits for A, A waits for X through the epics) accepted on attempt %d", c.nY, c.done, c.third, k+1),
+				mkTrace(st, "sibling dependency lists", []core.Req{req}, Assert{Kind: "exit_zero", Step: 1}, Assert{Kind: "has_waits_for_cycle", Step: 1}))
+			return
+		}
+	})
+	return map[string]interface{}{"stores": len(cfgs), "attempts": attempts, "rule": "16 stores (Y with 2/3 dependencies x finished or not x third child or not x creation order) x 30 attempts of the cycle-closing sequence: refused every time"}
 }
